@@ -654,9 +654,181 @@ def _alone(cmd, text, env):
     return rc, lines, se
 
 
+
+# ------------------------------------------------------------------------------------------
+# corpus scripts (corpus/C04/*.ops) and the pending-comment analysis
+# ------------------------------------------------------------------------------------------
+class CorpusScript(Script):
+    """ops from a file; `dump => <tree>` lines carry the expected committed view"""
+
+    def __init__(self, name, grow_only):
+        Script.__init__(self, name, grow_only)
+        self.cur_view = '-'
+
+    def view(self):
+        return self.cur_view
+
+
+def load_corpus(corpus_dir):
+    """corpus/C04/*.ops: `# name: x` starts a script (`# grow_only: 0|1` optional, default 1); every other
+    line is one op of harness/c04.cpp; `dump => <tree>` = dump with the expected view."""
+    out = []
+    if not os.path.isdir(corpus_dir):
+        return out
+    for fn in sorted(os.listdir(corpus_dir)):
+        if not fn.endswith('.ops'):
+            continue
+        cur = None
+        with open(os.path.join(corpus_dir, fn)) as f:
+            for line in f:
+                line = line.strip()
+                if not line:
+                    continue
+                m = re.match(r'#\s*name:\s*(\S+)', line)
+                if m:
+                    cur = CorpusScript('corpus-' + m.group(1), True)
+                    out.append(cur)
+                    continue
+                m = re.match(r'#\s*grow_only:\s*([01])', line)
+                if m and cur is not None:
+                    cur.grow_only = m.group(1) == '1'
+                    continue
+                if line.startswith('#') or cur is None:
+                    continue
+                if line.startswith('dump =>'):
+                    cur.cur_view = line[len('dump =>'):].strip()
+                    cur.add('dump', cur.cur_view)
+                else:
+                    if line.startswith('comment'):
+                        cur.has_comment = True
+                    cur.add(line)
+    return out
+
+
+OPENERS = ('node', 'way', 'relation', 'area', 'changeset', 'taglist', 'wnl', 'outer', 'inner', 'rml', 'disc')
+
+
+def pending_close_ops(ops):
+    """indexes of the `end` ops that destroy a discussion builder with a pending comment (add_comment()
+    without add_comment_text()): the destructor finishes the comment inside try/catch(...) — in mode
+    `no` a buffer_is_full of that repair is swallowed, the op answers ok"""
+    out, stack = set(), []
+    for i, o in enumerate(ops):
+        w = o.split(' ')[0]
+        if w in OPENERS:
+            stack.append([w, False])
+        elif w == 'comment' and stack and stack[-1][0] == 'disc':
+            stack[-1][1] = True
+        elif w == 'ctext' and stack and stack[-1][0] == 'disc':
+            stack[-1][1] = False
+        elif w == 'end' and stack:
+            k, pend = stack.pop()
+            if k == 'disc' and pend:
+                out.add(i)
+    return out
+
+
+def _u(raw, off, n):
+    return int.from_bytes(raw[off:off + n], 'little')
+
+
+def discussions_wellformed(raw):
+    """independent byte-level walk: every changeset_discussion item (top level or inside a changeset) must
+    be a sequence of comments {date, uid, text_size, user_size, user\\0, text\\0, padding} that ends exactly at
+    the item's end, every comment with user_size >= 1 and text_size >= 1 and NUL-terminated strings.
+    Returns (number of comments seen, None) or (n, reason)."""
+    ncomments = [0]
+
+    def disc(off, size):
+        pos, end = off + 8, off + size
+        while pos != end:
+            if pos + 16 > end:
+                return 'comment header at %d crosses the end %d of the discussion' % (pos, end)
+            ts, us = _u(raw, pos + 8, 4), _u(raw, pos + 12, 2)
+            nxt = pos + (16 + us + ts + 7) // 8 * 8
+            if us < 1 or ts < 1:
+                return 'comment at %d has user_size %d / text_size %d (unfinished)' % (pos, us, ts)
+            if nxt > end:
+                return 'comment at %d (user_size %d, text_size %d) ends at %d beyond the discussion end %d (unpadded / unfinished)' % (pos, us, ts, nxt, end)
+            if raw[pos + 16 + us - 1] != 0 or raw[pos + 16 + us + ts - 1] != 0:
+                return 'comment at %d: user/text not NUL-terminated inside the comment' % pos
+            ncomments[0] += 1
+            pos = nxt
+        return None
+
+    pos = 0
+    while pos + 8 <= len(raw):
+        size, ty = _u(raw, pos, 4), _u(raw, pos + 4, 2)
+        if size < 8 or pos + size > len(raw):
+            return ncomments[0], 'top-level item at %d has size %d' % (pos, size)
+        if ty == 0x80:
+            why = disc(pos, size)
+            if why:
+                return ncomments[0], why
+        elif ty == 5:
+            sub = pos + (56 + _u(raw, pos + 48, 2) + 7) // 8 * 8
+            end = pos + size
+            while sub < end:
+                ssize, sty = _u(raw, sub, 4), _u(raw, sub + 4, 2)
+                if ssize < 8 or sub + ssize > end:
+                    return ncomments[0], 'sub-item at %d has size %d' % (sub, ssize)
+                if sty == 0x80:
+                    why = disc(sub, ssize)
+                    if why:
+                        return ncomments[0], why
+                sub += (ssize + 7) // 8 * 8
+            if sub != end and (end + 7) // 8 * 8 != sub:
+                return ncomments[0], 'sub-item walk of the changeset at %d ends at %d, not at %d' % (pos, sub, end)
+        pos += (size + 7) // 8 * 8
+    if pos != len(raw):
+        return ncomments[0], 'top-level walk ends at %d of %d' % (pos, len(raw))
+    return ncomments[0], None
+
+
+PENDING_KEY = 'discussion-pending-comment-unfinished'
+PENDING_PROBES = [
+    # (name, ops, number of comments expected)
+    ('changeset-one-pending', ['changeset', 'disc', 'comment 1 2 6162', 'end', 'end', 'commit', 'hexdump'], 1),
+    ('standalone-empty-user', ['disc', 'comment 5 6 -', 'end', 'commit', 'hexdump'], 1),
+    ('second-comment-pending', ['changeset', 'user 78', 'disc', 'comment 1 2 61', 'ctext 62', 'comment 3 4 636465666768',
+                                'end', 'end', 'commit', 'hexdump'], 2),
+    ('pending-user-7-aligned', ['changeset', 'disc', 'comment 1 2 61626364656667', 'end', 'end', 'commit', 'hexdump'], 1),
+]
+
+
+def pending_comment_probe(ctx, hcmd):
+    """regression probe for 5690f83 (builder part): a ChangesetDiscussionBuilder destroyed with a pending comment
+    must leave a well-formed discussion (comment finished with an empty text and padded).  Evaluated on the
+    implementation alone, on the committed BYTES (hexdump: no library iterator involved)."""
+    for name, ops, ncom in PENDING_PROBES:
+        text = 'init 4096 yes 64 yes %d 1\n' % FILL + '\n'.join(ops) + '\n'
+        rc, lines, se = ctx.run_lines(hcmd, text, env=ASAN_ENV)
+        ctx.count('probe:pending-comment')
+        why = None
+        if rc != 0 or len(lines) != len(ops) + 1:
+            m = re.search(r'ERROR: AddressSanitizer: (\S+)|Assertion[^\n]*', se)
+            why = 'harness stopped after %d of %d ops (rc=%d %s)' % (len(lines), len(ops) + 1, rc, m.group(0) if m else '')
+        elif any(split(l)[0] != 'ok' for l in lines):
+            why = 'an op did not answer ok: %s' % [l[:60] for l in lines if split(l)[0] != 'ok'][:2]
+        else:
+            hexs = split(lines[-1])[2]
+            raw = bytes.fromhex(hexs) if hexs != '-' else b''
+            n, why = discussions_wellformed(raw)
+            if why is None and n != ncom:
+                why = '%d comments found in the committed bytes, %d were added' % (n, ncom)
+        if why:
+            ctx.violation(PENDING_KEY, 'a discussion builder destroyed with a pending comment (add_comment() without add_comment_text()) '
+                          'leaves a malformed discussion: probe %s: %s' % (name, why),
+                          {'kind': 'counterexample', 'ops': text.strip().split('\n'), 'impl': lines[-2:], 'stderr': se[-1500:],
+                           'replay': 'ASAN_OPTIONS=%s .build/c04-* < ops' % ASAN_ENV['ASAN_OPTIONS']})
+            return False
+    return True
+
+
 class Run:
-    def __init__(self, script, cap, mode, ops, cut=None):
+    def __init__(self, script, cap, mode, ops, cut=None, swallow=None):
         self.script, self.cap, self.mode, self.ops, self.cut = script, cap, mode, ops, cut
+        self.swallow = swallow      # index of an `end` whose destructor swallows buffer_is_full (answers ok)
         self.impl = None
         self.model = None
         self.crash = None
@@ -724,6 +896,8 @@ def run(ctx):
                         'strings passed to the builders contain no NUL; user names < 65535 bytes; item sizes < 2^32',
                         'object builders are opened without a parent; set_user at most once and before sub-builders',
                         'purge_removed only on buffers whose top-level items are all OSM entities (DESIGN.md O1)',
+                        'all strings passed to the builders are <= max_osm_string_length (1024) bytes: longer user names / keys / values / roles make set_user/add_user/add_tag/add_role throw std::length_error (bc6b907 for set_user/add_user); the generators stay <= 200 bytes and the model has no length_error outcome',
+                        'a ChangesetDiscussionBuilder destroyed with a pending comment (the caller broke the add_comment/add_comment_text protocol) is modelled and compared (5690f83: the destructor finishes the comment); in mode no, when that repair does not fit, the destructor swallows buffer_is_full and leaves text_size=1 without a text byte: compared with the model only (observation, outside the property: protocol violation by the caller)',
                         'dead memory [written, capacity) has the fill byte: ASan malloc_fill_byte + scrubbing by the harness']
     ctx.trusted += ['harness/c04.cpp (op interpreter on the real Buffer/builders, tree dump through the real accessors)',
                     'ASan/UBSan as the oracle for memory errors', 'hand transcription of buffer.hpp / builder.hpp / osm_object_builder.hpp into Model/Buf.lean, checked by the byte-exact correspondence']
@@ -758,6 +932,10 @@ def run(ctx):
                       {'kind': 'counterexample', 'ops': wtext.strip().split('\n'), 'impl_last_lines': wl[-2:], 'stderr': wse[-1500:],
                        'replay': 'ASAN_OPTIONS=%s <harness c04> < ops' % ASAN_ENV['ASAN_OPTIONS']})
 
+    # ---- regression probe: pending comment at destruction (only meaningful for the offset-based builder) ----
+    if fix:
+        pending_comment_probe(ctx, hcmd)
+
     # ---- scripts ---------------------------------------------------------------------------
     scripts = fixed_scripts()
     nrand = 90 if quick else 1500
@@ -767,6 +945,9 @@ def run(ctx):
     for i in range(12 if quick else 300):
         scripts.append(random_purge_script(rng, i))
     corpus_dir = os.path.join(vlib.ROOT, 'corpus', 'C04')
+    corpus = load_corpus(corpus_dir) if fix else []
+    scripts += corpus
+    ctx.count('scripts:corpus', len(corpus))
     # reference runs at a huge capacity (implementation): sizes and final dumps
     def last_op(s):
         return 'hexdump' if s.artificial else 'dumpall'
@@ -778,12 +959,18 @@ def run(ctx):
             ctx.count('reference-runs:not-executed-after-crashes')
             continue
         if ref.crash or any(split(l)[0] != 'ok' for l in ref.impl):
-            ctx.violation('reference-run:' + s.name, 'script %s does not run cleanly at a huge capacity: %s' % (s.name, (ref.crash or ref.impl)[-1:]),
+            if ref.crash:
+                m = re.search(r'ERROR: AddressSanitizer: (\S+)|runtime error: ([^\n]*)|HANG[^\n]*', ref.crash[1])
+                why = 'crash rc=%s %s after %d of %d ops' % (ref.crash[0], m.group(0) if m else '', len(ref.impl or []), len(ref.ops) + 1)
+            else:
+                why = '; '.join(l[:80] for l in ref.impl if split(l)[0] != 'ok')[:300]
+            ctx.violation('reference-run:' + s.name, 'script %s does not run cleanly at a huge capacity: %s' % (s.name, why),
                           {'kind': 'counterexample', 'ops': ref.text(fix).split('\n'), 'impl': ref.impl[-3:], 'stderr': (ref.crash or (0, ''))[1]})
             continue
         written = [int(split(l)[1][1]) for l in ref.impl[1:]]     # after each op (without init)
         s.ref_written = written
         s.ref_dumpall = split(ref.impl[-1])[2]
+        pend_close = pending_close_ops(s.ops)
         total = max(written)
         caps = list(range(64, total + 64 + 1, 8))
         if not quick or len(caps) <= 70:
@@ -808,6 +995,12 @@ def run(ctx):
                         elif not swapped and w > c:
                             cut = i
                             break
+                    if cut is not None and cut in pend_close:
+                        # the repair of the pending comment does not fit: ~ChangesetDiscussionBuilder() swallows the
+                        # buffer_is_full (try/catch), the op answers ok and other builders stay open: only the
+                        # correspondence with the model and the buffer counters are checked for this run
+                        runs.append(Run(s, c, mode, s.ops[:cut + 1] + ['hexdump'], swallow=cut))
+                        continue
                     if cut is not None:
                         runs.append(Run(s, c, mode, s.ops[:cut + 1] + ['rollback', 'hexdump' if s.artificial else 'dump'], cut=cut))
                         continue
@@ -825,10 +1018,22 @@ def run(ctx):
     else:
         exec_runs(mcmd, runs, fix, None, 'model')
         model_ok = True
-    ub_runs = [r for r in runs if model_ok and r.model is not None and any(l.startswith('stale_pointer') or l.startswith('null_deref') or l.startswith('misaligned') or l.startswith('terminate') for l in r.model)]
-    ub_set = set(id(r) for r in ub_runs)
+    ub_runs = [r for r in runs if model_ok and r.model is not None and any(l.startswith('stale_pointer') or l.startswith('null_deref') or l.startswith('misaligned') for l in r.model)]
+    # a destructor that throws (= std::terminate): the model says this is unreachable (padding always fits because
+    # capacities and item starts are multiples of 8); if it ever predicts one, the implementation must abort there
+    ub_ids = set(id(r) for r in ub_runs)
+    term_runs = [r for r in runs if model_ok and r.model is not None and id(r) not in ub_ids and any(l.startswith('terminate') for l in r.model)]
+    ub_set = ub_ids | set(id(r) for r in term_runs)
     normal = [r for r in runs if id(r) not in ub_set]
     exec_runs(hcmd, normal, fix, ASAN_ENV, 'impl')
+    ctx.count('runs:model-predicts-terminate', len(term_runs))
+    if term_runs:
+        exec_runs(hcmd, term_runs[:8], fix, ASAN_ENV, 'impl', nchunks=8)
+        for r in term_runs[:8]:
+            if r.impl is not None and not r.crash:
+                ctx.violation('correspondence:terminate-not-observed', 'the model predicts a throwing destructor (std::terminate) in %s but the implementation runs on' % r.ident(),
+                              {'kind': 'broken-correspondence', 'ops': r.text(fix).split('\n')}, found_input=False)
+                break
     # runs for which the model predicts the stale pointer: confirm a sample on the implementation
     ub_sample = ub_runs[:(16 if quick else 200)]
     exec_runs(hcmd, ub_sample, fix, ASAN_ENV, 'impl', nchunks=16)
@@ -876,6 +1081,11 @@ def run(ctx):
                             % (i, op, s.ref_written[i] if i < len(s.ref_written) else -1, r.cap))
                     break
                 continue
+            if r.swallow == i:
+                ctx.count('branch:pending-comment-repair-swallowed-full')
+                if int(nums_[1]) != r.cap:
+                    viol = ('swallowed-full', 'op #%d `%s` (destructor repairing a pending comment) should not fit into capacity %d (reference written=%d) but written=%s' % (i, op, r.cap, s.ref_written[i], nums_[1]))
+                    break
             if r.mode == 'no' and r.cut == i:
                 viol = ('missing-full', 'op #%d `%s` does not fit into capacity %d (needs %d) but buffer_is_full was not thrown' % (i, op, r.cap, s.ref_written[i]))
                 break
@@ -983,4 +1193,3 @@ def run(ctx):
             ctx.extra['first_disagreement'] = {'run': r.ident(), 'op': op, 'impl': a[:300], 'model': b[:300], 'count': ndis}
     for s in scripts[:3] + scripts[-2:]:
         ctx.sample(' ; '.join(s.ops[len(AUX_PRELUDE):])[:400])
-    _ = corpus_dir
